@@ -2,6 +2,8 @@
 # development helper: apply a one-line python-regex mutation to a file in /repo, run a check, restore.
 # usage: tools/mut.sh <relative file> <python regex> <replacement> -- <check args...>
 set -u
+trap "" PIPE
+trap 'cp /tmp/_mut_backup.py "$f" 2>/dev/null; rm -f /tmp/_mut_backup.py' EXIT
 f=/repo/$1; pat=$2; rep=$3; shift 4
 cp "$f" /tmp/_mut_backup.py
 /usr/bin/python3 - "$f" "$pat" "$rep" <<'PY'
